@@ -34,6 +34,14 @@ CHECKS.update({
          "For every primitive decoder x 3 decoding paths (own deserialize, serde+postcard, serde+JSON) x several base encodings: every single-byte substitution (hence every bit flip and every tag byte), every length 0..2L; accepted => re-encoding reproduces the input. Explicit negatives (zero, q, q+1, identity spellings, all 8 / 4 torsion points, mixed-order points, x>=p, off-curve x, every SEC1 tag), every version byte, every deviation of the 4-byte ciphersuite id, other suites' ids and encodings, JSON header variants; value round trips of ~40 wire types x shapes x identifier kinds in postcard and JSON incl. the pre-3.0 public key package.",
          "Byte strings two or more deviations away from a valid encoding are outside the bound (thorough adds all 2-bit flips for <=33-byte primitives); postcard trailing bytes / non-minimal varints and JSON hex case are the serde back ends' framing and are not alarmed.", "DESIGN 4 C12"),
 })
+CHECKS.update({
+ "C07": ("exploration", "bounded-exhaustive shape enumeration of complete honest DKG runs on the real code with independent algebraic oracles",
+         "Every (n,t) up to the bound x 5 identifier kinds x seeds through each crate's three DKG parts (and the tiny field): all participants hold the identical public package; every key package is consistent; group key = sum of constant-term commitments (Taproot: BIP-341 key-path-only tweak recomputed with libsecp256k1 add_tweak); every entry = summed commitment polynomial evaluated independently; EVERY t-subset interpolates to the key and signs under an independent verifier.",
+         "Per-participant polynomials are seeded streams.", "DESIGN 4 C07"),
+ "C08": ("fault_enumeration", "exhaustive fault enumeration over every (receiver, sender) pair x fault kind x field, against two concurrent honest runs",
+         "Every ordered (receiver, sender) pair x ~30 fault kinds on both DKG rounds (both proof components, proof for every other identifier / other run, every commitment coefficient, lengths t-1/t+1 with and without valid proof, own-identifier filing in three forms, missing/surplus, misrouted / cross-run / cross-sender shares, consistently restricted or extended maps). The first consuming step must be Err, earlier steps must equal the honest run, culprits must be a subset of {sender} and exactly {sender} for proof and share faults.",
+         "'Attributable' is read as 'the error carries a culprit' (DESIGN 3.8 rule 4).", "DESIGN 4 C08"),
+})
 NOT_APPLICABLE = {}
 
 def main():
